@@ -58,4 +58,8 @@ def equiv (lt : α → α → Bool) (v x : α) : Bool := !lt x v && !lt v x
 def binarySearch (lt : α → α → Bool) (xs : List α) (v : α) : Option Nat :=
   if xs.countP (equiv lt v) = 1 then xs.findIdx? (equiv lt v) else none
 
+/-- a source range after an operation that reads every element by value: untouched if it was passed as an lvalue,
+    every element moved-from if it was passed as an rvalue -/
+def consumed (rv : Bool) (moved : α) (xs : List α) : List α := if rv then xs.map (fun _ => moved) else xs
+
 end Fcppt.C16.Spec
